@@ -16,7 +16,7 @@ import (
 	"pgregory.net/rapid"
 )
 
-const c03RuleText = "1-4 policies x 1-4 path stanzas as HCL text through the real ParseACLPolicy (patterns over literals a/bb/ccc, '+' segments, trailing '*', '/*', mid-segment glob, trailing '/', duplicates across policies; capability subsets incl. deny/sudo; half of the cases with allowed/denied/required parameters, min/max wrapping TTL, pagination_limit, expiration; 1 in 5 cases with policies and requests in root and ns1/), one request (path derived from a pattern or random; parameters; wrap TTL) decided for all 7 operations against a reference evaluator of policies.mdx, then every permutation of the policy list, Capabilities(), and one extra deny-only policy; non-trivial = >=2 different patterns match the request path, or the winning pattern is written in >=2 stanzas, or a parameter/pagination/TTL rule decided, or the list/scan fallback order decided. PINNED READING: for list/scan on a path with trailing slash the order exact(path) > exact(path without slash) > non-exact(path) > non-exact(path without slash) is asserted (exact wins over any glob, also in the fallback); classes fallback-order-decides:* count where another order would pick another pattern"
+const c03RuleText = "1-4 policies x 1-4 path stanzas as HCL text through the real ParseACLPolicy (patterns over literals a/bb/ccc, '+' segments, trailing '*', '/*', mid-segment glob, trailing '/', an optional leading '/', duplicates across policies; capability subsets incl. deny/sudo; half of the cases with allowed/denied/required parameters, min/max wrapping TTL, pagination_limit, expiration; 1 in 5 cases with policies and requests in root and ns1/), one request (path derived from a pattern or random; parameters; wrap TTL) decided for all 7 operations against a reference evaluator of policies.mdx, then every permutation of the policy list, Capabilities(), and one extra deny-only policy; non-trivial = >=2 different patterns match the request path, or the winning pattern is written in >=2 stanzas, or a parameter/pagination/TTL rule decided, or the list/scan fallback order decided. PINNED READING: for list/scan on a path with trailing slash the order exact(path) > exact(path without slash) > non-exact(path) > non-exact(path without slash) is asserted (exact wins over any glob, also in the fallback); classes fallback-order-decides:* count where another order would pick another pattern"
 
 var (
 	c03Ops     = []string{"create", "read", "update", "delete", "list", "scan", "patch"}
@@ -249,6 +249,7 @@ func c03GenCase(t *rapid.T) c03Case {
 				st.Pattern, rich = strings.TrimPrefix(full, p.NS), true
 			}
 			st.Caps = c03GenCaps(t, rich)
+			st.LeadSlash = rapid.IntRange(0, 7).Draw(t, "leadingSlash") == 0
 			if rich {
 				c03GenConstraints(t, &st)
 			}
